@@ -32,7 +32,12 @@ class Script:
 CFG_DEFAULT = dict(sessionExpiry=MAX, idExpiry=MAX, grace=0, cacheExpiry=MAX, acceptIP=1, acceptUA=1, maxCache=-1)
 
 
-def emit_cfg(sc, codec, cfg, cookie=None):
+ZONES = ["Asia/Kolkata", "America/St_Johns", "Pacific/Chatham", "America/Los_Angeles", "Europe/Berlin"]
+
+
+def emit_cfg(sc, codec, cfg, cookie=None, rnd=None):
+    if rnd is not None and rnd.random() < 0.3:
+        sc.add("tz", rnd.choice(ZONES))
     sc.add("codec", codec)
     for k in ("sessionExpiry", "idExpiry", "grace", "cacheExpiry", "acceptIP", "acceptUA", "maxCache"):
         sc.add("cfg", k, cfg[k])
@@ -57,10 +62,11 @@ def pick_cfg(rnd, U, profile="general"):
 
 
 class Client:
-    def __init__(self, i):
+    def __init__(self, i, rnd=None):
         self.name = "c%d" % i
         self.ip = "10.%d.0.1:%d" % (i, 4000 + i)
-        self.ua = "Agent/%d.0" % i
+        # the user-agent string varies per history so that its 64-bit fingerprint covers the whole range (incl. >= 2^63)
+        self.ua = "Agent/%d.%d" % (i, rnd.randint(0, 9999) if rnd else 0)
         self.n = 0
 
 
@@ -76,8 +82,8 @@ def general(rnd, nsteps=30, codec=None, U=None, cfg=None, nclients=None, feature
                       path=rnd.choice(["-", "/", "/app"]), secure=rnd.choice([0, 1]), httponly=rnd.choice([0, 1]),
                       samesite=rnd.choice([0, 1, 2, 3, 4]), maxage=rnd.choice([0, 3600, 315360000]),
                       expoff=rnd.choice([0, 3600, 315360000]))
-    emit_cfg(sc, codec, cfg, cookie)
-    clients = [Client(i) for i in range(nclients or rnd.randint(1, 4))]
+    emit_cfg(sc, codec, cfg, cookie, rnd)
+    clients = [Client(i, rnd) for i in range(nclients or rnd.randint(1, 4))]
     minted = 0  # upper bound on ids minted so far (for forged 'dead id' picks)
     users = ["u0", "u1"]
     keys = ["k0", "k1", "k2"]
